@@ -126,21 +126,10 @@ def programs(tier, seed):
     progs = []
     for rep in REPS:
         pairs = list(itertools.combinations_with_replacement(range(len(BODIES)), 2))
-        rnd = random.Random(seed * 7919 + hash(rep) % 1000)
-        if tier == "quick":
-            # all pairs over the 6 most distinctive bodies for the shared representation; for the other representations all
-            # pairs over {drop, read+drop, clone+drop+drop, into_vec, into_mut} (every pair that can free, take or race)
-            core = [0, 1, 2, 3, 4, 5] if rep == "shared" else [0, 1, 2, 3, 4]
-            base = [(a, b) for a, b in pairs if a in core and b in core]
-            base = [(a, b) for a, b in base if all(o == "read" or o in REPS[rep] for i in (a, b) for o in BODIES[i])]
-            for a, b in base:
-                progs.append((rep, [BODIES[a], BODIES[b]], False))
-        else:
-            for a, b in pairs:
-                progs.append((rep, [BODIES[a], BODIES[b]], False))
-            trip = list(itertools.combinations_with_replacement(range(5), 3))
-            rnd.shuffle(trip)
-            for t in trip[:12]:
+        for a, b in pairs:
+            progs.append((rep, [BODIES[a], BODIES[b]], False))
+        if tier != "quick":
+            for t in itertools.combinations_with_replacement(range(6), 3):
                 progs.append((rep, [BODIES[i] for i in t], False))
     # promotion programs: n threads clone through ONE shared &Bytes that is still unpromoted, drop their clone;
     # the owner drops the original after joining them
@@ -233,53 +222,68 @@ progs = programs(TIER, SEED)
 if os.environ.get("RC11_ONLY"):
     progs = [p for p in progs if os.environ["RC11_ONLY"] in ("%s%s %s" % (p[0], "+promo" if p[2] else "", p[1]))]
 report["programs"] = len(progs)
-budget_s = 1500 if TIER == "quick" else 6000
-for (rep, bodies, promotion) in progs:
-    if time.time() - T0 > budget_s:
-        report["inconclusive"].append("time budget exhausted after %d programs" % report["queries"])
-        break
+
+
+def solve_one(idx):
+    """one litmus program: build, encode, vacuity check, queries (runs in a worker process)"""
+    (rep, bodies, promotion) = progs[idx]
+    out = {"name": "", "inconclusive": [], "violations": [], "queries": 0, "discharged": 0, "solver_s": 0.0, "events": 0, "res": {}}
     name = "%s%s: %s" % (rep, " (unpromoted, shared &Bytes)" if promotion else "", " || ".join("[" + ",".join(b) + "]" for b in bodies))
+    out["name"] = name
     try:
         b, init_events, tails = build(rep, bodies, promotion)
         G, hb, rf, mo = encode(b, init_events)
     except mirsym.Unknown as e:
-        report["inconclusive"].append("%s: %s" % (name, e))
-        continue
+        out["inconclusive"].append("%s: %s" % (name, e))
+        return out
+    out["events"] = len(b.evs)
     Q = q_events(b, G, hb)
-    # sanity: the program has at least one consistent execution (otherwise every query would be vacuously unsat)
-    b.s.push()
     t1 = time.time()
+    b.s.push()
     r0 = b.s.check()
     b.s.pop()
     if r0 != sat:
-        report["inconclusive"].append("%s: no consistent execution (encoding vacuous): %s" % (name, r0))
-        continue
-    res = {}
+        out["inconclusive"].append("%s: no consistent execution (encoding vacuous): %s" % (name, r0))
+        return out
     for q in WANT:
         b.s.push()
         b.s.add(Q[q])
-        b.s.set("timeout", 120000)
+        b.s.set("timeout", 300000)
         r = b.s.check()
-        report["queries"] += 1
-        report["obligations"] += 1
+        out["queries"] += 1
         if r == unsat:
-            report["discharged"] += 1
-            res[q] = "unsat"
+            out["discharged"] += 1
+            out["res"][q] = "unsat"
         elif r == sat:
             m = b.s.model()
             lines = describe_model(b, m, G, rf)
-            fn = os.path.join(OUTDIR, "%s_%s_%d.txt" % (PROP, q, report["queries"]))
+            fn = os.path.join(OUTDIR, "%s_%s_%d.txt" % (PROP, q, idx))
             open(fn, "w").write("program: %s\nquery: %s (sat = violating execution allowed by RC11)\n\nskeletons:\n%s\n\nexecuted events:\n%s\n" % (
                 name, q, "\n".join("  %s: %s" % (REPS[rep][o], "\n      ".join(report["skeletons"][REPS[rep][o]])) for o in sorted(set(x for bb in bodies for x in bb if x != "read"))), "\n".join(lines)))
-            report["violations"].append(["%s: query %s is satisfiable" % (name, q), fn])
-            res[q] = "SAT"
+            out["violations"].append(["%s: query %s is satisfiable" % (name, q), fn])
+            out["res"][q] = "SAT"
         else:
-            report["inconclusive"].append("%s: query %s: %s" % (name, q, r))
-            res[q] = str(r)
+            out["inconclusive"].append("%s: query %s: %s" % (name, q, r))
+            out["res"][q] = str(r)
         b.s.pop()
-    report["solver_s"] += time.time() - t1
-    report["nontrivial"] += 1
-    if len(report["samples"]) < 40:
-        report["samples"].append({"program": name, "events": len(b.evs), "verdicts": res})
+    out["solver_s"] = time.time() - t1
+    return out
+
+
+import multiprocessing
+nproc = int(os.environ.get("VERIF_JOBS", "12"))
+with multiprocessing.Pool(nproc) as pool:
+    outs = pool.map(solve_one, range(len(progs)), chunksize=1)
+for o in outs:
+    report["queries"] += o["queries"]
+    report["obligations"] += o["queries"]
+    report["discharged"] += o["discharged"]
+    report["inconclusive"] += o["inconclusive"]
+    report["violations"] += o["violations"]
+    report["solver_s"] += o["solver_s"]
+    if o["queries"]:
+        report["nontrivial"] += 1
+    if len(report["samples"]) < 40 and o["queries"]:
+        report["samples"].append({"program": o["name"], "events": o["events"], "verdicts": o["res"]})
 report["wall_s"] = round(time.time() - T0, 1)
 print(json.dumps(report))
